@@ -245,7 +245,7 @@ def _fuzz_stage(res, tier, seed, scratch, secs, bins):
             except subprocess.TimeoutExpired:
                 out = ""
             m = re.search(r"ERROR: AddressSanitizer: ([a-zA-Z0-9_-]+)", out)
-            if m and m.group(1) not in ("allocation-size-too-big", "out-of-memory", "requested allocation size", "stack-overflow"):
+            if m and m.group(1) not in ("allocation-size-too-big", "out-of-memory", "requested", "stack-overflow", "allocator"):
                 frames = re.findall(r"#\d+ 0x[0-9a-f]+ in (\S+) (/repo/\S+?):\d+", out)
                 site = (frames[0][1].replace("/repo/", "") + ":" + frames[0][0].split("::")[-1]) if frames else "?"
                 data = open(os.path.join(ad, a), "rb").read()
